@@ -190,6 +190,8 @@ class Gen:
             # a user operation is tracked iff it comes with a derivative; now and then it has one although
             # every operand is untracked
             t = t or self.r.random() < 0.15
+            if t and self.r.random() < 0.08:
+                t = False              # ... and now and then it has none although an operand is tracked: untracked result
             par["bw"] = t
         h = self.new(dims, t)
         self.steps.append(op(name, args, h, **par))
